@@ -159,12 +159,12 @@ def gen_model(rng):
     lines = [{"kind": "top", "node": t} for t in tops] + [{"kind": "sub", "node": a} for nm in subl for a in subl[nm]]
     rng.shuffle(lines)
     for ln in lines:
-        ln["nums"] = (rng.choice([0, 2]), round(rng.uniform(0.1, 2), 4), round(rng.uniform(0, 0.1), 4),
-                      rng.choice([0, 2]), round(rng.uniform(-3.1, 3.1), 4), round(rng.uniform(0, 0.1), 4))
+        ln["nums"] = (rng.choice([0, 2, "2.0", "0.0", 3]), round(rng.uniform(0.1, 2), 4), round(rng.uniform(0, 0.1), 4),
+                      rng.choice([0, 2, "2.0", "+2"]), round(rng.uniform(-3.1, 3.1), 4), round(rng.uniform(0, 0.1), 4))
     params = []
     for i in range(rng.choice([0, 0, 1, 2, 4, 8])):
         nm = rng.choice(["D0_radius", "f_scatt", "IS_p1_", "s0_prod", "sA", "K(1)(1270)bar-_mass", "a(1)(1260)+_width", "x::y"]) + str(i)
-        params.append((nm, rng.choice([0, 2, 3]), rng.choice(["0.0037559", "-0.39899", "1289.81", "2", "1e-3", "+0.5"]), rng.choice(["0", "0.557988", "1.5"])))
+        params.append((nm, rng.choice([0, 2, 3, "2.0", "0.0", "-1"]), rng.choice(["0.0037559", "-0.39899", "1289.81", "2", "1e-3", "+0.5"]), rng.choice(["0", "0.557988", "1.5"])))
     consts = []
     for i in range(rng.choice([0, 0, 1, 2, 3])):
         consts.append((rng.choice(["a(1)(1260)+::Spline::Min", "K(1460)bar-::Spline::N", "K(1)(1270)bar-::Spline::Max", "Some::Const"]) + ("" if i == 0 else str(i)),
@@ -175,6 +175,10 @@ def gen_model(rng):
         extras.append('Output "out.root"')
     if rng.random() < 0.2:
         extras.append("nEvents 1000")
+    if rng.random() < 0.2:   # line kinds of the grammar that state neither an amplitude nor a table row
+        extras.append("D0{K-,pi+} 2 1.5 0.1")
+    if rng.random() < 0.2:
+        extras.append("K*(892)bar0 = K*(892)0")
     return {"event": event, "lines": lines, "params": params, "consts": consts, "cartesian": cart, "extras": extras}
 
 
@@ -249,7 +253,7 @@ def expected(model):
         f1, a, da, f2, ph, dph = ln["nums"]
         amp = complex(a, ph) if cart else cmath.rect(a, ph)
         groups.append({"strs": expand(ln["node"]), "amp": amp, "spin": ln["node"].spin, "ls": ln["node"].ls})
-    params = [(nm, int(fl) > 0, float(v), float(e)) for nm, fl, v, e in model["params"]]
+    params = [(nm, float(fl) > 0, float(v), float(e)) for nm, fl, v, e in model["params"]]
     consts = [(nm, float(v)) for nm, v in model["consts"]]
     return {"states": [pname(x) for x in model["event"]], "groups": groups, "params": params, "consts": consts}
 
